@@ -20,7 +20,7 @@ ASSUMPTIONS = [
     "'ensemble' with load_all/loads_all is refused by design (ValueError)",
     "dump to a path with an unsupported format: only the ValueError is judged, not whether an empty file was created",
 ]
-REQUIRED = {"cell.load": 100, "cell.load-again-after-edit": 30, "cell.loads": 60, "cell.load_all": 60, "cell.loads_all": 40, "cell.dump": 100, "cell.dumps": 20,
+REQUIRED = {"cell.load": 100, "cell.load-again-after-edit": 30, "cell.load-after-file-replaced": 9, "cell.loads": 60, "cell.load_all": 60, "cell.loads_all": 40, "cell.dump": 100, "cell.dumps": 20,
             "cell.error": 40, "name-override.checked": 60, "dump.stream-left-open": 20, "dump.append-vs-truncate": 10}
 CHUNK_TIMEOUT = 600
 TECHNIQUE = "runtime monitoring: differential oracle, public entry points vs class-level codecs over the full call matrix"
@@ -67,6 +67,7 @@ def run_chunk(spec, ctx):
                 matrix(ctx, ("generated", spec["chunk"], j, fmt), text, fmt)
     elif spec["kind"] == "cdxml":
         run_cdxml(ctx)
+        run_replaced_files(ctx)
     else:
         run_errors(ctx)
 
@@ -290,6 +291,53 @@ def judge(ctx, case, key, got, gerr, want, werr, name, want_list=False):
             ctx.violation(f"{key}:name-override-ignored", case=case, names=names_of(got)[:3], want=name)
 
 
+def run_replaced_files(ctx):
+    """a file is replaced by another one under the same path with its modification time preserved (cp -p, rsync -t):
+    load / load_all must return what the file holds now"""
+    import os
+    import shutil
+    import molli as ml
+    from vmon.snap import snap, diff
+
+    triples = [("cdxml", "parser_demo.cdxml", "charges_mult.cdxml"), ("mol2", "dendrobine.mol2", "dmf.mol2"),
+               ("xyz", "dendrobine.xyz", "pentane_confs.xyz")]
+    for fmt, fa, fb in triples:
+        p = ctx.tmp / f"replaced.{fmt}"
+        stamp = 1_600_000_000
+        for which, src in (("first", fa), ("second", fb), ("first-again", fa)):
+            shutil.copyfile(ml.files.ROOT / src, p)
+            os.utime(p, (stamp, stamp))
+            case = ("replaced", fmt, which)
+            if not ctx.want(case):
+                continue
+            ctx.count("cell.load-after-file-replaced")
+            ctx.case(case, dkey=case, nontrivial=True, sample={"call": "load/load_all after file replaced", "fmt": fmt, "content": src})
+            if fmt == "cdxml":
+                want_all = {k: snap(ml.CDXMLFile(p)[k]) for k in sorted(ml.CDXMLFile(p).keys())}
+                got_all, err = attempt(lambda: ml.load_all(p))
+                if err is not None:
+                    ctx.violation(f"load_all:{fmt}:raises-after-file-replaced:{type(err).__name__}", case=case)
+                    continue
+                if len(got_all) != len(want_all):
+                    ctx.violation(f"load_all:{fmt}:stale-content-after-file-replaced", case=case, got=len(got_all), want=len(want_all))
+                key = sorted(want_all)[0]
+                got, err = attempt(lambda: ml.load(p, key=key))
+                if err is not None:
+                    ctx.violation(f"load:{fmt}:raises-after-file-replaced:{type(err).__name__}", case=case, key=key)
+                elif diff({k: v for k, v in snap(got).items() if k != "name"}, {k: v for k, v in want_all[key].items() if k != "name"},
+                          rtol=1e-9, atol=1e-9):
+                    ctx.violation(f"load:{fmt}:stale-content-after-file-replaced", case=case, key=key)
+            else:
+                want = getattr(ml.Molecule, f"load_all_{fmt}")(p)
+                got, err = attempt(lambda: ml.load_all(p))
+                if err is not None or not same(ctx, case, f"load_all-after-file-replaced:{fmt}", got, want):
+                    if err is not None:
+                        ctx.violation(f"load_all:{fmt}:raises-after-file-replaced:{type(err).__name__}", case=case)
+                got1, err = attempt(lambda: ml.load(p))
+                if err is None:
+                    same(ctx, case, f"load-after-file-replaced:{fmt}", got1, want[0])
+
+
 def run_cdxml(ctx):
     import molli as ml
     from vmon.snap import snap, diff
@@ -396,6 +444,29 @@ def run_errors(ctx):
             ctx.violation(f"{cname}:unsupported-format-accepted", case=case, fmt="cdxml", returned=repr(got)[:40])
         elif not isinstance(err, ValueError):
             ctx.violation(f"{cname}:unsupported-format-raises-{type(err).__name__}-instead-of-ValueError", case=case, fmt="cdxml")
+    # a refused format must not take the caller's stream away: it stays open and later dumps into it still work
+    for bad in ("qqq", "pdb", "cdxml"):
+        for target in ("StringIO", "file"):
+            case = ("error", "dump-stream-then-continue", bad, target)
+            ctx.count("cell.error")
+            ctx.case(case, dkey=case, nontrivial=False)
+            buf = io.StringIO() if target == "StringIO" else open(ctx.tmp / f"cont-{bad}.txt", "w+")
+            try:
+                ml.dump(mol, buf, "mol2")
+                _, err = attempt(lambda: ml.dump(mol, buf, bad))
+                if err is None:
+                    ctx.violation("dump-stream:unsupported-format-accepted", case=case, fmt=bad)
+                if buf.closed:
+                    ctx.violation("dump-stream:refused-format-closes-the-callers-stream", case=case, fmt=bad)
+                    continue
+                _, err2 = attempt(lambda: ml.dump(mol, buf, "xyz"))
+                buf.seek(0)
+                if err2 is not None or buf.read() != mol.dumps_mol2() + mol.dumps_xyz():
+                    ctx.violation("dump-stream:stream-unusable-or-content-wrong-after-refused-format", case=case, fmt=bad,
+                                  err=repr(err2)[:100])
+            finally:
+                if not buf.closed:
+                    buf.close()
     # cdxml from a string: documented as file-only
     case = ("error", "loads", "cdxml")
     ctx.count("cell.error")
